@@ -50,7 +50,8 @@ theorem node_split {σ} (S : Src σ) (P : Params) (fr : Frame) (st : St σ)
     ∃ axis n1 n2 base2, axis < P.dim ∧ fr.levels.getD axis 0 < P.bitLength ∧ 2 < fr.n ∧
       n1 + n2 = fr.n ∧ out = [] ∧
       f = (if n1 ≠ 0 then some ⟨n1, axis, fr.base, fr.levels.set axis (fr.levels.getD axis 0 + 1)⟩ else none) ∧
-      sn = (if n2 ≠ 0 then some ⟨n2, axis, base2, fr.levels.set axis (fr.levels.getD axis 0 + 1)⟩ else none) := by
+      sn = (if n2 ≠ 0 then some ⟨n2, axis, base2, fr.levels.set axis (fr.levels.getD axis 0 + 1)⟩ else none) ∧
+      base2.length = fr.base.length ∧ st1.decoded = st.decoded := by
   unfold node at h
   split at h
   · cases h
@@ -73,16 +74,18 @@ theorem node_split {σ} (S : Src σ) (P : Params) (fr : Frame) (st : St σ)
   split at h
   · cases h
   rename_i h1 h2 h3 h4 h5
-  have key : ∀ (a b : Nat) (x : St σ), a + b = fr.n →
-      some (pushChildren P fr axis a b x) = some (Step.split out f sn st1) →
+  have key : ∀ (a b : Nat) (x : σ), a + b = fr.n →
+      some (pushChildren P fr axis a b ⟨x, st.decoded⟩) = some (Step.split out f sn st1) →
       ∃ axis n1 n2 base2, axis < P.dim ∧ fr.levels.getD axis 0 < P.bitLength ∧ 2 < fr.n ∧
         n1 + n2 = fr.n ∧ out = [] ∧
         f = (if n1 ≠ 0 then some ⟨n1, axis, fr.base, fr.levels.set axis (fr.levels.getD axis 0 + 1)⟩ else none) ∧
-        sn = (if n2 ≠ 0 then some ⟨n2, axis, base2, fr.levels.set axis (fr.levels.getD axis 0 + 1)⟩ else none) := by
+        sn = (if n2 ≠ 0 then some ⟨n2, axis, base2, fr.levels.set axis (fr.levels.getD axis 0 + 1)⟩ else none) ∧
+        base2.length = fr.base.length ∧ st1.decoded = st.decoded := by
     intro a b x hab hx
     simp only [pushChildren, Option.some.injEq, Step.split.injEq] at hx
-    obtain ⟨ho, hf, hs, _⟩ := hx
-    exact ⟨axis, a, b, _, by omega, by omega, by omega, hab, ho.symm, hf.symm, hs.symm⟩
+    obtain ⟨ho, hf, hs, hst⟩ := hx
+    exact ⟨axis, a, b, _, by omega, by omega, by omega, hab, ho.symm, hf.symm, hs.symm,
+      by simp only [List.length_set], by rw [← hst]⟩
   split at h
   · split at h
     · exact key _ _ _ (by omega) h
@@ -95,7 +98,7 @@ theorem node_measured {σ} (S : Src σ) (P : Params) :
   · intro fr s out s1 _ _
     simp only [frameMu]; omega
   · intro fr s out f sn s1 hi h
-    obtain ⟨axis, n1, n2, base2, hax, hlv, hn, hsum, _, hf, hs⟩ := node_split S P fr s out f sn s1 h
+    obtain ⟨axis, n1, n2, base2, hax, hlv, hn, hsum, _, hf, hs, _, _⟩ := node_split S P fr s out f sn s1 h
     have hrl := remLevels_set P.bitLength fr.levels axis (by omega) hlv
     generalize hR' : remLevels P.bitLength (fr.levels.set axis (fr.levels.getD axis 0 + 1)) = R' at hrl
     have hlen : (fr.levels.set axis (fr.levels.getD axis 0 + 1)).length = P.dim := by
